@@ -82,7 +82,7 @@ MANIFEST = dict(
          "thorough tier) StepMania rows floored in measures capped at 384 rows after a tempo point that is not on a 1/96-beat row.",
     note="Trusted: Coq kernel+VM, the reference interpreters of the component properties, generator / serialiser / diagnose() of "
          "harness/props/c09.py, PyYAML and struct. corr is a composition of denotations, not of the component models (except in the "
-         "O2Jam -> Quaver theorem). Known findings (16 keys) are listed per pair in findings/C09.json and keep being generated; any other "
+         "O2Jam -> Quaver theorem). Known findings (15 keys) are listed per pair in findings/C09.json and keep being generated; any other "
          "violation, including a recurrence of a fixed one, raises. Not covered: scroll velocities and metadata through the pipeline (C08 checks the wiring), rolls / mines "
          "dropped by SMTo*, BMS charts whose first tempo point is not at 0 ms (shifted by the writer; treated as outside the format).",
     technique="Coq proof (composition of C06/C07/C08 theorems) + reference interpreters evaluated by vm_compute on the implementation's files",
@@ -1289,12 +1289,12 @@ def diagnose(case, out, k):
     if stl is not None and not stl["notes"] and (b == "sm" or (a, b) in (("bms", "qua"), ("bms", "osu"))):
         if exc is not None:
             if "NaN" in exc or exc.startswith("write: TypeError") or "isn't supported" in exc:
-                return "keys-from-max-column"
+                return "keys-from-empty-chart"
             return None
         try:
             tl_target(case, tg[k]["v"])
         except Exception:
-            return "keys-from-max-column"
+            return "keys-from-empty-chart"
         return None
     # ---- the pipeline raised
     if exc is not None:
@@ -1369,7 +1369,7 @@ def diagnose(case, out, k):
         slack += Fr(1, 200) * max(Fr(60000) / v for _, v in st)
         bnd1 = bnd
         bnd = lambda t, f=bnd1, d=slack: f(t) + d
-    if b == "sm" and len(st) > 1 and any((bt * 96).denominator != 1 for bt, _, _ in _snapped_tempo(st)) and _capped_measure(v):
+    if b == "sm" and len(st) > 1 and any(d or (bt * 96).denominator != 1 for bt, d, _ in _snapped_tempo(st)) and _capped_measure(v):
         # notes are snapped RELATIVE to the tempo point in force (<= 1/192 beat either way, the point itself is snapped too);
         # when that point is not on a 1/96-beat row and the measure needs more than 384 rows, the row is then FLOORED
         # (< 1 row early): together more than one 1/96-beat row
@@ -1480,6 +1480,7 @@ FIXED_KEYS = {
     "osu->sm:sm-bpms-beat-2dp", "qua->sm:sm-bpms-beat-2dp", "o2j->sm:sm-bpms-beat-2dp",               # 6b5cf38
     "bms->osu:bms-header-missing", "bms->qua:bms-header-missing", "bms->sm:bms-header-missing",       # 31e60b2
     "bms->osu:bms-sample-non-ascii",                                                                  # d05f0bf
+    "bms->osu:keys-from-max-column",                                                                  # a0b08c0 (only charts without notes failed)
 }
 
 
@@ -1490,6 +1491,8 @@ def classify(case, out, kind, sub=None):
     if cause is None:
         return None
     key = f"{case['src']}->{case['tgt']}:{cause}"
+    if cause == "keys-from-empty-chart":          # column.max() of a chart without notes: repaired for every converter (5e5686a, a0b08c0)
+        return "regression:" + key
     return "regression:" + key if key in FIXED_KEYS else key
 
 
